@@ -5,6 +5,9 @@ VERIF = os.path.dirname(os.path.dirname(os.path.abspath(__file__)))
 
 # id -> (category, technique, text, note, design_ref)
 CHECKS = {
+    'C20': ('exploration', 'offline monitor over the file written by cvt:writegraph and the ModelAPI trace of the same run of the real driver (mpmon, ASan build)',
+            'Random models (infinite bounds, free rows, extreme coefficients, several objectives, defined variables) under native/linear-only/mixed acceptance and names off/generic/from files containing quotes, backslashes, braces and commas are converted with the graph export on; every line is parsed by a strict JSON parser, NL and delivered items are checked for presence, every created constraint for exactly one consistent final status record, every link for known item classes and in-range indices, delivered rows for being linked exactly once, and the records marked final for equality (type, order, name, variables) with the AddConstraint calls.',
+            'numbers are compared to 1e-5 relative (the writer prints about 6 digits); record order in the file is not constrained; with objno/multiobj only the objectives the converter receives are required', '2/C20'),
     'C19': ('exploration', 'trace monitoring of the real driver (mpmon): names recorded at AddVariables / AddConstraint / Set*Objective judged against the documented naming rule',
             'Random models under cvt:names 0..3, name files present/absent/short/CRLF/look-alike and native/linear-only/mixed acceptance are converted by the real code; every delivered name is checked for presence, original items for the file\'s or the generic name, created items for derivation from a source item, and variables and constraints for pairwise distinct names.',
             'variables and constraints are separate name spaces; three listed known findings (derived-name collisions, look-alike file names, a nameless row from a nested indicator conversion)', '2/C19'),
